@@ -31,13 +31,20 @@ def plan(prop, tier, seed):
         jobs += _hist(prop, S(n_long // 2, 7000), nops=nops, alpha="sameblock")
         jobs += _hist(prop, S(n_short // 3, 9000), nops=nops, alpha="tiny")
         jobs += _exh(prop, 2 if q else 3)
+    RULES_KINDS = ["page", "page", "links", "batch", "pages", "pages", "create", "@addp", "@rmp", "@move", "@del", "rule"]
     if prop == "C04":
-        jobs += _hist(prop, S(n_short, 12000), nops=22, mode="rules", kinds=["page", "page", "links", "batch", "pages", "create", "@addp", "@rmp", "@move", "@del", "rule"])
+        jobs += _hist(prop, S(n_short, 12000), nops=22, mode="rules", kinds=RULES_KINDS)
+    elif prop in ("C01", "C02", "C03", "C05", "C07", "C08", "C10", "C13", "C20", "C19"):
+        # web-shaped LRUs under creation rules (automatic creations, pages submitted
+        # through add_pages with and without the crawled mark)
+        jobs += _hist(prop, S(n_short // 2, 12000), nops=22, mode="rules", kinds=RULES_KINDS)
     if prop in ("C01", "C02", "C19"):
         step = 12 if q else 4
         jobs += [dict(kind="lengths", prop=prop, seed=0, lo=a, hi=min(a + step, 232)) for a in range(1, 232, step)][:: (3 if q else 1)]
         if q:
             jobs += [dict(kind="lengths", prop=prop, seed=0, lo=a, hi=a + 3) for a in (73, 147, 221)]
+    if prop in ("C01", "C02"):
+        jobs += [dict(kind="bytevalues", prop=prop, seed=0, lo=a, hi=a + 32) for a in range(0, 256, 32)]
     if prop == "C19":
         jobs += [dict(kind="empty_metrics", prop=prop, seed=0)]
     if prop == "C09":
@@ -64,6 +71,7 @@ def plan(prop, tier, seed):
         jobs += _hist(prop, S(n_short // 3, 9000), nops=20, mode="rules", kinds=["page", "page", "links", "rule", "batch"])
     if prop == "C15":
         jobs += _hist(prop, S(n_short), nops=nops, alpha="short", backend="twin")
+        jobs += _hist(prop, S(n_short // 2, 3000), nops=nops, alpha="short", backend="twin", clear=True)
         jobs += _hist(prop, S(n_long, 5000), nops=nops, alpha="long", backend="twin")
         jobs += _hist(prop, S(n_short // 3, 9000), nops=20, mode="rules", kinds=["page", "page", "links", "rule", "batch"], backend="twin")
     if prop == "C16":
@@ -98,7 +106,7 @@ def run_bounded(prop, tier, seed, procs=None, budget_s=None):
     distinct = sum(r.get("distinct", 0) for r in results if r.get("distinct")) or 0
     distinct += len(set(r["sig"] for r in results if r["nontrivial"] and not r.get("distinct")))
     kinds = sorted(set(j["kind"] for j in jobs))
-    exhaustive_part = [j for j in jobs if j["kind"] in ("exh", "variations", "lengths")]
+    exhaustive_part = [j for j in jobs if j["kind"] in ("exh", "variations", "lengths", "bytevalues")]
     return {
         "jobs": len(jobs),
         "kinds": kinds,
